@@ -517,6 +517,37 @@ M('C03', 'apply_local_op normalises the labels of the operator in place', MPS,
   "            op = self.shift_Array_unit_cells(op, -num_unit_cells, inplace=False)",
   'OWN-param-icall')
 
+# ---------------------------------------------------------------- C11
+M('C11', 'MPO addition ignores differing explicit_plus_hc', MPO,
+  "        if self.explicit_plus_hc != other.explicit_plus_hc:\n            raise ValueError('Can not add MPOs with different explicit_plus_hc flags')\n",
+  "", 'HCFLAG-derived')
+M('C11', 'get_IdR without the bond offset', MPO,
+  "        return self.IdR[self._to_valid_site_index(i) + 1]", "        return self.IdR[self._to_valid_site_index(i)]",
+  'ID-pairing')
+M('C11', 'dagger ignores the implicit h.c.', MPO,
+  "        if self.explicit_plus_hc:\n            return self.copy()\n        # complex conjugate and transpose everything",
+  "        # complex conjugate and transpose everything", 'HCFLAG-derived')
+
+# ---------------------------------------------------------------- C13
+M('C13', 'update_env deletes LP on the left index', MC, "            env.del_LP(i_R)", "            env.del_LP(i_L)",
+  'HOOKS-env-pairing')
+M('C13', 'update_env indices: and instead of or', MC, "        if n == 2 or move_right:", "        if n == 2 and move_right:",
+  'HOOKS-env-pairing')
+M('C13', 'update_env rebuilds RP from U', MC, "self.eff_H.update_RP(self.env, i_L, update_data['VH'])",
+  "self.eff_H.update_RP(self.env, i_L, update_data['U'])", 'HOOKS-env-pairing')
+M('C13', '_update_env_inds with guard clause (equivalent)', MC,
+  """        if n == 2 or move_right:
+            i_L = self.i0
+            i_R = self.i0 + 1
+        else:  # n == 1 and left moving
+            # TODO is this also correct if move_right is None?
+            i_L = self.i0 - 1
+            i_R = self.i0
+        return i_L, i_R""",
+  """        if n != 2 and not move_right:
+            return self.i0 - 1, self.i0
+        return self.i0, self.i0 + 1""", None, 'silent')
+
 # ---------------------------------------------------------------- C09
 M('C09', 'get_B scales the left leg by the change of the right exponent', MPS,
   "self._scale_axis_B(B, self.get_SL(i), new_form[0] - old_form[0], 'vL', cutoff)",
